@@ -251,6 +251,7 @@ class Run:
         self.step = -1
         self.renders = 0
         self.held = None
+        self.pre_focus = None
 
     # ---- items
     def make_item(self, r):
@@ -336,6 +337,9 @@ class Run:
         layout = self.layout
         self.layout = None
         self.last_op = op
+        self.pre_focus = None
+        if k == "mouse":
+            self.pre_focus = self.state_sig()["focus"]  # the focus class before the press (a failed press moves it)
         self.count("op:" + opkind(op).split(":")[0])
         n = len(self.model)
         if k == "key":
@@ -592,6 +596,8 @@ class Run:
                 self.apply(op)
             except Failure as f:
                 st = self.state_sig()
+                if f.clause == "mouse1-focus" and self.pre_focus:
+                    st["focus"] = self.pre_focus
                 base = f"C07|{f.clause}|{f.kind}"
                 if f.clause != "raise":
                     base += f"|op={st['op']}|focus={st['focus'].split(',')[0].replace('edit', 'cursor')}"
